@@ -78,7 +78,13 @@ class MacroExpander(Visitor):
         )
 
     def visit_GateStatement(self, gate):
-        return replace_gate(gate, self.macros)
+        result = replace_gate(gate, self.macros)
+        if result is not gate:
+            # Normalize the expanded body as well: blocks nested by inner
+            # macro calls are spliced into same-kind parents at every level,
+            # so expanding twice is the same as expanding once.
+            result = self.visit(result)
+        return result
 
 
 def replace_gate(gate, macros):
